@@ -285,24 +285,30 @@ def judgeMqtt : Judge := liftJudge fun input obs => do
   let l := newLimiter (if isNil then none else some ⟨rr, br, tp⟩)
   let wantKind := match l with
     | .none => "none" | .multi .. => "multi" | .request .. => "request" | .byte .. => "byte"
-  let want := l.run (pk.map (fun n => (0, n)))
+  -- virtual clock: packet k arrives after the advances dts[0..k] (absent = 0: everything in period 0)
+  let dts := (getIntList input "dts").toOption.getD []
+  let times := arrivalTimes 0 dts pk.length
+  let arr := times.zip pk
+  let want := l.run arr
   let wantPol : Int × Int × List Int := match l with
     | .none => (0, 0, []) | .multi p _ => (p.P, p.T, p.Ls)
     | .request p _ => (p.P, p.T, [p.L]) | .byte p _ => (p.P, p.T, [p.L])
   let gotPol : Int × Int × List Int := (optInt obs "P", optInt obs "T", (getIntList obs "Ls").toOption.getD [])
   let agree := decide (got = want) && kind == wantKind && decide (gotPol = wantPol)
   -- property: per period at most requestRate packets; admitted bytes < bytesRate + largest admitted packet
-  let adm := (pk.zip got).filter (·.2) |>.map (·.1)
-  let bytes := adm.foldl (· + ·) 0
-  let mx := adm.foldl (fun a b => if b > a then b else a) 0
+  -- (`requestsOk` / `overshootOk` over the observed history; accepted for the model's run by
+  -- `mqtt_request_run_bound`, `mqtt_bytes_run_bound`, `mqtt_multi_run_bounds`)
   let limited := !isNil
+  let P : Int := (if tp > 0 then tp else 1) * 1000000000
   -- "per period": the limiter's period is the configured one (whole seconds, at least 1) and nothing waits
   let polOk := kind == "none" || (gotPol.1 == (if tp > 0 then tp else 1) * 1000000000 && gotPol.2.1 == 0)
   let spec := got.length == pk.length && polOk &&
-    (!(limited && rr > 0) || decide ((adm.length : Int) ≤ rr)) &&
-    (!(limited && br > 0) || decide (bytes < br + mx)) &&
+    (!(limited && rr > 0) || requestsOk rr P (runHist arr got (fun _ => 1))) &&
+    (!(limited && br > 0) || overshootOk br P (runHist arr got (·.2))) &&
     (!(isNil || (rr ≤ 0 && br ≤ 0)) || got.all id)
-  pure { agree := agree, spec := spec, tags := [wantKind] ++ (if got.any (!·) then ["reject"] else []),
+  let periods := (times.map (· / P)).eraseDups.length
+  pure { agree := agree, spec := spec, tags := [wantKind] ++ (if got.any (!·) then ["reject"] else [])
+           ++ (if periods ≥ 2 then ["periods>=2"] else []) ++ (if periods ≥ 4 then ["periods>=4"] else []),
          nontrivial := got.any (!·),
          expected := Json.arr (want.map (fun b => Json.num (if b then 1 else 0))).toArray,
          sig := if spec then "" else "mqtt:period-bound-exceeded" }
